@@ -378,8 +378,8 @@ def k4(ctx):
     for n in ast.walk(put.node):
         if isinstance(n, ast.Compare) and len(n.ops) == 2 and all(isinstance(o, ast.LtE) for o in n.ops):
             try:
-                lo = ast.literal_eval(n.left)
-                hi = ast.literal_eval(n.comparators[1])
+                lo = ctx.fold(n.left, put.module)
+                hi = ctx.fold(n.comparators[1], put.module)
                 if lo == -2 ** 63 and hi == 2 ** 63 - 1:
                     guard = True
             except Exception:
